@@ -150,6 +150,7 @@ def assert_family(prog, shell="UtestShell"):
             "TestResult::countCheck": lambda *a_: (log.append("check"), 0)[1], shell + "::failWith": failwith, shell + "::getTestResult": lambda *a_: 6000,
             "SimpleString::StrCmp": lambda a_, b_: None if txt(a_) is None or txt(b_) is None else cmp3(txt(a_), txt(b_)),
             "SimpleString::StrNCmp": lambda a_, b_, n_: None if txt(a_) is None or txt(b_) is None else cmp3(txt(a_)[:n_], txt(b_)[:n_]),
+            "SimpleString::StrLen": lambda a_: None if txt(a_) is None else len(txt(a_)),
             "SimpleString::MemCmp": lambda a_, b_, n_: None if txt(a_) is None or txt(b_) is None else cmp3(txt(a_)[:n_], txt(b_)[:n_]),
             "doubles_equal": lambda *a_: (log.append(("doubles_equal", a_)), (answers or {}).get("doubles_equal", 1))[1]})
         ev = Evaluator(prog, f, env=env, calls=hooks)
@@ -248,8 +249,10 @@ def macro_layer(ctx, run):
                     w = (0 if c else 1) if neg else c
                     if len(log) != 1 or log[0][0] != "assertTrue" or (1 if log[0][1][0] else 0) != w:
                         why = why or "%s(%d) expands to %s; expected assertTrue(%d, ...)" % (macro, c, [(m, a_[:1]) for m, a_ in log], w)
-            elif macro in ("CHECK_EQUAL", "CHECK_EQUAL_TEXT", "ENUMS_EQUAL_INT", "CHECK_EQUAL_ZERO"):
-                for e_, a_ in ((5, 5), (5, 6), (0, 0), (0, 7)):
+            elif macro in ("CHECK_EQUAL", "CHECK_EQUAL_TEXT", "ENUMS_EQUAL_INT", "ENUMS_EQUAL_INT_TEXT", "ENUMS_EQUAL_TYPE", "ENUMS_EQUAL_TYPE_TEXT", "CHECK_EQUAL_ZERO"):
+                # (the typed enum checks compare in the type they are given: values that differ only above bit 31 differ)
+                wide = ((0, 1 << 32), (7, (1 << 40) + 7), ((1 << 33) + 1, (1 << 33) + 1)) if macro.startswith("ENUMS_EQUAL_TYPE") else ()
+                for e_, a_ in ((5, 5), (5, 6), (0, 0), (0, 7)) + wide:
                     if macro == "CHECK_EQUAL_ZERO":
                         if e_ != 0:
                             continue
